@@ -23,6 +23,7 @@ struct CodegenResult {
       ARGSIZE_MISMATCH = 4, /*function called with wrong number of arguments*/
       INTERNAL_ERROR = 5,   /*codegen error, e.g. couldn't backpatch*/
       UNKNOWN_MARK = 6,     /*GOTO to undefined jump mark*/
+      DUPLICATE_PARAMETER = 7, /*parameter name used twice in a program header*/
     };
     Type t;
     std::string message;
